@@ -13,6 +13,7 @@
 -/
 import Golib.HMap.PlainStep
 import Golib.HMap.Types
+import Golib.HMap.Multi
 
 set_option linter.unusedSectionVars false
 
@@ -97,6 +98,27 @@ theorem intint_wire (hash : Int → Nat) (thr : Nat → Nat) (d : PDesc Int Int)
     (PMap.toObject hash thr d (PMap.new thr cap) (PMap.toBytes m)).count = m.tab.entries.length :=
   let w := PMap.intint_wire thr cap h hlen hr hok
   ⟨w.1, w.2.1⟩
+
+/-! ### several live containers: no aliasing -/
+
+/-- **no_aliasing.**  In a pool of live maps an operation addressed to slot `i` — including `PutAll(other)`
+    and `ToObject(other.ToBytes())`, which are `putAll l` with `l` the enumeration of the source — leaves every
+    other slot, the source included, exactly as it was.  (Containers are values in the model: "no shared
+    storage" is the specification; tie B compares all live instances after every mutating op.) -/
+theorem no_aliasing (hash : K → Nat) (thr : Nat → Nat) (d : PDesc K V) (dflt : PMap K V)
+    (pool : Array (PMap K V)) (i k : Nat) (op : POp K V) (h : k ≠ i) :
+    (poolStep (PMap.step hash thr d) dflt pool i op).1.getD k dflt = pool.getD k dflt :=
+  poolStep_frame _ dflt pool i k op h
+
+theorem pool_target (hash : K → Nat) (thr : Nat → Nat) (d : PDesc K V) (dflt : PMap K V)
+    (pool : Array (PMap K V)) (i : Nat) (op : POp K V) (h : i < pool.size) :
+    (poolStep (PMap.step hash thr d) dflt pool i op).1.getD i dflt = (PMap.step hash thr d (pool.getD i dflt) op).1 ∧
+    (poolStep (PMap.step hash thr d) dflt pool i op).2 = (PMap.step hash thr d (pool.getD i dflt) op).2 :=
+  poolStep_target _ dflt pool i op h
+
+/-- `PutAll(other)` puts a permutation of the source's entries: the source's enumeration is one (tie to `enumerate_once`) -/
+theorem putAll_source (hash : K → Nat) (d : PDesc K V) (src : PMap K V) (s : PS K V) (h : PMap.Rel hash d src s) :
+    src.tab.entries.Perm s.ents := PMap.entries_perm h
 
 /-! ### recorded deviations -/
 
